@@ -305,10 +305,28 @@ def opt_case(spec, pid):
         if serr is None:
             serr = optcommon.dangling(m2)
         if serr:
-            kind = "output_type_lost" if ("Field 'type' of 'value_info' is required but missing" in serr or
-                                          "Field 'shape' of 'type' is required but missing" in serr) else "invalid"
-            culprit = optcommon.attribute(m, o, lambda x: not optcommon.structural(x) and not optcommon.dangling(x), fired, known,
-                                          prefer=lambda name, kind=kind: listed(f"mech={name};kind={kind}"))
+            def inv_kind(msg):
+                if msg is None:
+                    return None
+                if "in initializer but not in graph input" in msg:
+                    # IR version < 4 wants every initializer listed as a graph input; every mechanism that adds one (lifted
+                    # constants, rule-made shape tensors, folded values) trips over it: one finding, whatever the mechanism
+                    return "ir3_initializer_not_input"
+                return "output_type_lost" if ("Field 'type' of 'value_info' is required but missing" in msg or
+                                              "Field 'shape' of 'type' is required but missing" in msg) else "invalid"
+
+            kind = inv_kind(serr)
+
+            def same_symptom_gone(x, kind=kind):
+                # the re-optimized model may be invalid for ANOTHER listed reason (e.g. Split[num_outputs] in opset 13 next to a
+                # lost output type): a mechanism is necessary for THIS symptom if this symptom disappears without it
+                return inv_kind(optcommon.structural(x) or optcommon.dangling(x)) != kind
+
+            if kind == "ir3_initializer_not_input":
+                culprit = "any"
+            else:
+                culprit = optcommon.attribute(m, o, same_symptom_gone, fired, known,
+                                              prefer=lambda name, kind=kind: listed(f"mech={name};kind={kind}"))
             res["c04"].append({"key": f"mech={culprit or '?'};kind={kind}", "what": f"{o['api']}({_optstr(o)}) result invalid: {serr[:300]}",
                                "detail": {"opts": o, "case": label, "fired": list(dict.fromkeys(fired))[:20]}})
         sd = optcommon.sig_diff(m, m2)
